@@ -4,23 +4,25 @@
    themselves and the half-way points. *)
 EXTENDS TetraWeights
 CONSTANTS CORNERS, EFLO1, EFHI     \* EFLO1 = lowest Fermi level + 1 (cfg files cannot hold negative numbers)
-VARIABLES e, ef, der, acc, admissible, welldef, w, closed
+VARIABLES e, ef, der, acc, admissible, welldef, w, closed, alt
 EFLO == EFLO1 - 1
-vars == <<e, ef, der, acc, admissible, welldef, w, closed>>
+vars == <<e, ef, der, acc, admissible, welldef, w, closed, alt>>
 
 SortedCorners == {s \in [1..4 -> CORNERS] : \A k \in 1..3 : s[k] <= s[k + 1]}
 NA == <<0, 0>>      \* "not evaluated" marker (no rational has denominator 0)
 W(ee, x, d, a) == IF NotOnDegenerateCorner(x, ee) THEN WeightsTetra(x, ee, d, a) ELSE NA
 C(ee, x, d) == IF WellDefined(x, ee, d) THEN ClosedOcc(ee, x, d) ELSE NA
+(* the other admissible one-sided value where the derivative jumps (der = 3 on a simple corner), else the code's value *)
+A(ee, x, d, a) == IF NotOnDegenerateCorner(x, ee) THEN (IF OneSided(x, ee, d) THEN LeftConvention(x, ee, d) ELSE WeightsTetra(x, ee, d, a)) ELSE NA
 
 (* accurate is only looked at for der = 0; for der > 0 the default call (accurate=True) is the polynomial branch *)
 Init == /\ e \in SortedCorners /\ der \in 0..3 /\ acc \in BOOLEAN /\ (der > 0 => acc)
         /\ ef = EFLO
         /\ admissible = NotOnDegenerateCorner(ef, e) /\ welldef = WellDefined(ef, e, der)
-        /\ w = W(e, ef, der, acc) /\ closed = C(e, ef, der)
+        /\ w = W(e, ef, der, acc) /\ closed = C(e, ef, der) /\ alt = A(e, ef, der, acc)
 Step == /\ ef < EFHI /\ ef' = ef + 1
         /\ admissible' = NotOnDegenerateCorner(ef', e) /\ welldef' = WellDefined(ef', e, der)
-        /\ w' = W(e, ef', der, acc) /\ closed' = C(e, ef', der)
+        /\ w' = W(e, ef', der, acc) /\ closed' = C(e, ef', der) /\ alt' = A(e, ef', der, acc)
         /\ UNCHANGED <<e, der, acc>>
 Next == Step
 Spec == Init /\ [][Next]_vars
@@ -41,5 +43,7 @@ DerivativeOfPieceCubic ==
    /\ welldef => closed = PieceCubicDer(PlainPiece(ef, e), e, der, ef)
    /\ admissible => w = PieceCubicDer(Piece(ef, e), e, der, ef)
 BreakPoints == ContinuousAtCorners(e)
+(* the one-sided alternative differs from the code's value exactly where the closed form is not defined *)
+OneSidedOnlyAtJumps == admissible => ((alt # w) => ~welldef)
 Nudge == NudgeIrrelevant(ef, e)
 =============================================================================
